@@ -815,6 +815,20 @@ def main():
             c = component_history("d%d" % k, rng, A, [], rng.randint(3, 6))
         c.kind = "dense-int"
         comp.append(c)
+    # B2'': rank-deficient dense integer matrices: the dense kernel (more than 25 rows) runs out of pivots, handle_singularity reports
+    for k in range(20 if T else 2):
+        n = rng.randint(30, 36)
+        A = dense_int_matrix(rng, n, rng.choice([0.5, 0.8]))
+        for _ in range(rng.choice([1, 1, 2])):
+            a, b = rng.sample(range(n), 2)
+            if rng.random() < 0.5:
+                A[b] = [x * 2 for x in A[a]]
+            else:
+                for i in range(n):
+                    A[i][b] = -A[i][a]
+        c = component_static("D%d" % k, rng, A, [], 2)
+        c.kind = "dense-int-singular"
+        comp.append(c)
     # B3: update histories
     nhist = 3000 if T else 300
     for k in range(nhist):
@@ -1012,7 +1026,7 @@ def main():
             _, _, what, opidx, kinds, hdr, n = meta
             dk = "dense-kernel" if hdr.get("dense_base", -1) >= 0 else "sparse-only"
             if dk == "dense-kernel":
-                big = n - hdr.get("dense_base", 0) > 25
+                big = hdr.get("nstages", n) - hdr.get("dense_base", 0) > 25
                 dk += ">25rows" if big else "<=25rows"
             ncls = "n<=3" if n <= 3 else ("n<=16" if n <= 16 else ("n<=40" if n <= 40 else "n>40"))
             head = c.text() + "# factorization: %s; dump header %s\n" % (what, hdr)
@@ -1050,7 +1064,10 @@ def main():
                 ck.violation("model_%s.txt" % lq, c.text(), "model driver gave no answer for singular report %s (%s)" % (lq, a), no_input=True)
                 continue
             cert, pre, ker = a[:3]
-            bump("sing-report/%s/cert=%s,prefix=%s,kernel-zero=%s" % ("dense-kernel" if hdr.get("dense_base", -1) >= 0 else "sparse-only", cert, pre, ker))
+            dkk = "sparse-only"
+            if hdr.get("dense_base", -1) >= 0:
+                dkk = "dense-kernel>25rows" if hdr.get("nstages", 0) - hdr.get("dense_base", 0) > 25 else "dense-kernel<=25rows"
+            bump("sing-report/%s/cert=%s,prefix=%s,kernel-zero=%s" % (dkk, cert, pre, ker))
             if cert == "0":
                 ck.violation("sing_cert_%s.txt" % lq, head, "the report of the singular factorization is not exact: the certificate for (repaired matrix non-singular, rows singc of its "
                              "inverse are left null vectors of B) is rejected by the extracted check_sing_report (%dx%d, nsing %d)" % (n, n, nsing), match=dict(kind="sing-report"))
